@@ -478,6 +478,12 @@ where
             &mut self.rng,
         )?;
         self.state = self.hamiltonian.init_state(math, position)?;
+        if !self.state.point().logp().is_finite() {
+            return Err(NutsError::BadInitGrad(
+                anyhow::anyhow!("Invalid initial point: log-density is not finite").into(),
+            )
+            .into());
+        }
         // Initialise momentum according to the current trajectory kind.
         self.hamiltonian
             .initialize_trajectory(math, &mut self.state, true, &mut self.rng)?;
